@@ -33,6 +33,9 @@ func drawC16(rt *rapid.T) *Case {
 		c.Paths = []string{misses[gen.Uniform(rt, "absent", len(misses))]}
 	}
 	c.Path = gen.QuoteName(key, gen.NSQ, 0)
+	if gen.Uniform(rt, "nullvalue", 5) == 0 {
+		c.Ints = []int{1}
+	}
 	return c
 }
 
@@ -79,6 +82,9 @@ func checkC16(c *Case, st *Stats) string {
 	obj2 := map[string]interface{}{} // a second object for the '..' and filter positions: lacks the key, has the siblings
 	for i, k := range c.Strs {
 		obj[k] = float64(1000 + i)
+		if i == 0 && len(c.Ints) > 0 && c.Ints[0] == 1 {
+			obj[k] = nil // a member whose value is JSON null is still a member
+		}
 		if i > 0 {
 			obj2[k] = float64(2000 + i)
 		}
@@ -106,6 +112,11 @@ func checkC16(c *Case, st *Stats) string {
 	}
 	walk(nested)
 	list := []interface{}{obj, obj2, obj3}
+	eqLit := "1000"
+	if want == nil {
+		eqLit = "null"
+		st.Class("value:null")
+	}
 	for _, sp := range spellingsOf(key) {
 		st.Class("spelling:" + sp.name)
 		type probe struct {
@@ -118,7 +129,7 @@ func checkC16(c *Case, st *Stats) string {
 			{"root", "$" + sp.sel, obj, []interface{}{want}},
 			{"after-name", "$.w" + sp.sel, nested, []interface{}{want}},
 			{"after-..", "$.." + strings.TrimPrefix(sp.sel, "."), nested, occ},
-			{"filter-eq", "$[?(@" + sp.sel + " == 1000)]", list, []interface{}{obj}},
+			{"filter-eq", "$[?(@" + sp.sel + " == " + eqLit + ")]", list, []interface{}{obj}},
 			{"filter-exists", "$[?(@" + sp.sel + ")]", list, []interface{}{obj, obj3}},
 			{"filter-ne", "$[?(@" + sp.sel + " != 3000)]", list, []interface{}{obj, obj2}},
 		}
